@@ -48,7 +48,7 @@ def plan(tier, seed):
 
 def mandatory(tier):
     out = [f"loss/{n}" for n in POINTWISE + ["ncc_loss", "lcc_loss", "wlcc_loss", "mi_loss", "nmi_loss", "dice", "tversky"]]
-    out += [f"mask_shape/{m}" for m in MASK_SHAPES] + ["modules", "D/2", "D/3", "dice/absent_label", "wlcc/source_target_masks", "modules/norm_spellings", "soft_mask", "overlap_reductions", "max_difference/nested", "overlap/binarize", "modules/patchwise", "local/even_kernel", "mi_sampled/N1", "mi_sampled/11"] + [f"overlap/weight_shape/{f}/{t_}" for f in ("N...", "N1...", "NC...") for t_ in ("multiclass", "binary")]
+    out += [f"mask_shape/{m}" for m in MASK_SHAPES] + ["modules", "D/2", "D/3", "dice/absent_label", "wlcc/source_target_masks", "modules/norm_spellings", "soft_mask", "overlap_reductions", "max_difference/nested", "overlap/binarize", "modules/patchwise", "modules/reuse", "wlcc/mask_plus_one", "local/even_kernel", "mi_sampled/N1", "mi_sampled/11"] + [f"overlap/weight_shape/{f}/{t_}" for f in ("N...", "N1...", "NC...") for t_ in ("multiclass", "binary")]
     return out
 
 
@@ -208,6 +208,14 @@ def run_item(ctx, item):
                 w_again = LF.wlcc_loss(x, y, source_mask=sm, target_mask=tm, kernel_size=ks)
                 close("wlcc_two_masks_same_value_on_every_call", w_again, w_mean, "wlcc_loss/two_masks", rel=1e-6)
                 close("wlcc_two_masks_symmetric", w_swap, w_mean, "wlcc_loss/two_masks", rel=1e-4)
+                # mask together with only one of the two mean masks: the other local mean stays unweighted (equivalent to
+                # passing a mask of ones for it)
+                ones_ = torch.ones_like(sm)
+                wm_s = LF.wlcc_loss(x, y, mask=masks["N1"], source_mask=sm, kernel_size=ks)
+                close("wlcc_mask_and_source_mask_leaves_target_mean_unweighted", wm_s, LF.wlcc_loss(x, y, mask=masks["N1"], source_mask=sm, target_mask=ones_, kernel_size=ks), "wlcc_loss/mask_plus_one", rel=1e-5)
+                wm_t = LF.wlcc_loss(x, y, mask=masks["N1"], target_mask=tm, kernel_size=ks)
+                close("wlcc_mask_and_target_mask_leaves_source_mean_unweighted", wm_t, LF.wlcc_loss(x, y, mask=masks["N1"], source_mask=ones_, target_mask=tm, kernel_size=ks), "wlcc_loss/mask_plus_one", rel=1e-5)
+                ctx.bucket("wlcc/mask_plus_one")
                 both = (sm * tm).expand_as(w_none)
                 close("wlcc_two_masks_mean_is_masked_mean_of_none", w_mean, w_none.double().sum() / both.double().sum() if float(both.sum()) > 0 else w_mean, "wlcc_loss/two_masks", rel=1e-4)
     # even window sizes (the documentation only says the 'none' output then differs in shape from the input)
@@ -387,6 +395,15 @@ def run_item(ctx, item):
         close("MI_module", LM.MI(num_bins=bins)(x1, y1), LF.mi_loss(x1, y1, num_bins=bins), "modules/MI", rel=1e-4)
         close("MI_module_bins_alias", LM.MI(bins=bins)(x1, y1, mask=masks["N1"]), LF.mi_loss(x1, y1, num_bins=bins, mask=masks["N1"]), "modules/MI/mask", rel=1e-4)
         close("NMI_module", LM.NMI(num_bins=bins)(x1, y1), LF.nmi_loss(x1, y1, num_bins=bins), "modules/NMI", rel=1e-4)
+        # a loss module is reused for every batch of an epoch: the second pair (other intensity range) gets the value the
+        # functional form gives for that pair
+        for mname, mk, fk in (("MI", lambda: LM.MI(num_bins=bins), lambda a, b: LF.mi_loss(a, b, num_bins=bins)), ("NMI", lambda: LM.NMI(num_bins=bins), lambda a, b: LF.nmi_loss(a, b, num_bins=bins)), ("NCC", lambda: LM.NCC(), lambda a, b: LF.ncc_loss(a, b)), ("LCC", lambda: LM.LCC(kernel_size=ks), lambda a, b: LF.lcc_loss(a, b, kernel_size=ks)), ("MSE", lambda: LM.MSE(norm=False), lambda a, b: LF.mse_loss(a, b))):
+            mod_ = mk()
+            mod_(x1, y1)
+            a2, b2 = x1 * 3.0 + 2.0, z1 * 0.5 - 1.0
+            close("module_second_call_equals_functional", mod_(a2, b2), fk(a2, b2), f"modules/{mname}/reuse", rel=1e-4)
+            close("module_first_pair_again_equals_functional", mod_(x1, y1), fk(x1, y1), f"modules/{mname}/reuse", rel=1e-4)
+        ctx.bucket("modules/reuse")
         # option aliases readable under either name
         ctx.true("module_option_aliases", LM.HuberImageLoss(delta=d).beta == d and LM.HuberImageLoss(beta=d).delta == d and LM.SmoothL1ImageLoss(beta=d).delta == d and LM.SmoothL1ImageLoss(delta=d).beta == d and LM.MI(bins=bins).bins == bins and LM.MI(num_bins=bins).num_bins == bins and LM.NMI(num_bins=bins).normalized is True and LM.MI().normalized is False, key="modules/aliases")
         if D == 3:
